@@ -2,13 +2,21 @@
 (* All interleavings of NProc processes over one shared program, each        *)
 (* executing it MaxRuns times (every execution with an interpreter of its    *)
 (* own), for every program body of at most MaxLen instructions over Menu.    *)
+(* Cmds = TRUE: the menu of the instructions that start commands (system,     *)
+(* cmd | getline, print | cmd, close), every process with a command string    *)
+(* of its own; starting a command takes two steps, and the interleavings      *)
+(* between them are where the SharedShellArgs slip shows.                     *)
 EXTENDS SharedProgram
 
-CONSTANTS MaxLen
+CONSTANTS MaxLen, Cmds
 
 \* regular expression 3 (/1|10/) is used both as the compiled literal ("match") and, with the same source, on the
 \* run-time path ("rlen"), where leftmost-longest matters
-Menu == { [op |-> "set", g |-> 1, k |-> 3], [op |-> "set", g |-> 2, k |-> 4],
+CmdMenu == { [op |-> "set", g |-> 1, k |-> 3], [op |-> "print", g |-> 1, k |-> 0],
+             [op |-> "system", g |-> 1, k |-> 0], [op |-> "cmdgetline", g |-> 1, k |-> 0],
+             [op |-> "printcmd", g |-> 1, k |-> 0], [op |-> "close", g |-> 1, k |-> 0] }
+Menu == IF Cmds THEN CmdMenu ELSE
+        { [op |-> "set", g |-> 1, k |-> 3], [op |-> "set", g |-> 2, k |-> 4],
           [op |-> "add", g |-> 1, k |-> 2], [op |-> "add", g |-> 2, k |-> 3],
           [op |-> "match", g |-> 1, k |-> 1], [op |-> "match", g |-> 2, k |-> 3],
           [op |-> "rlen", g |-> 2, k |-> 3],
@@ -18,13 +26,14 @@ Menu == { [op |-> "set", g |-> 1, k |-> 3], [op |-> "set", g |-> 2, k |-> 4],
 RECURSIVE Bodies(_)
 Bodies(n) == IF n = 0 THEN {<<>>} ELSE Bodies(n - 1) \cup {Append(b, m) : b \in {c \in Bodies(n - 1) : Len(c) = n - 1}, m \in Menu}
 
-VARIABLES body, program, interp, runs, spare, acc
-vars == <<body, program, interp, runs, spare, acc>>
+VARIABLES body, program, shell, interp, runs, spare, acc
+vars == <<body, program, shell, interp, runs, spare, acc>>
 
 NoAcc == [p |-> 0, reads |-> {}, writes |-> {}]
 Init ==
   /\ body \in Bodies(MaxLen)
   /\ program = MkProgram(body)
+  /\ shell = NoShell
   /\ interp = [i \in 1..NProc |-> NoInterp]
   /\ runs = [i \in 1..NProc |-> 0]
   /\ spare = NoInterp
@@ -34,18 +43,20 @@ Init ==
 \* private state (sizes are read from the program's tables); the previous interpreter of the process is dropped
 New(i) ==
   /\ interp[i].status \in {"none", "done"} /\ runs[i] < MaxRuns
-  /\ interp' = [interp EXCEPT ![i] = StartInterp(spare)]
+  /\ interp' = [interp EXCEPT ![i] = StartInterpOf(i, spare)]
   /\ runs' = [runs EXCEPT ![i] = @ + 1]
   /\ spare' = IF ReuseInterp THEN NoInterp ELSE spare
   /\ acc' = [p |-> i, reads |-> {PLoc("sizes", 0)} \cup (IF ReuseInterp /\ spare.status = "done" THEN {<<"pool", 0>>} ELSE {}),
-             writes |-> {ILoc(i, "g", 1), ILoc(i, "g", 2), ILoc(i, "pc", 0), ILoc(i, "out", 0), ILoc(i, "rc", 0), ILoc(i, "rng", 0)}]
-  /\ UNCHANGED <<body, program>>
-\* one VM instruction of the current execution of process i
+             writes |-> {ILoc(i, "g", 1), ILoc(i, "g", 2), ILoc(i, "pc", 0), ILoc(i, "out", 0), ILoc(i, "rc", 0), ILoc(i, "rng", 0),
+                         ILoc(i, "cmd", 0), ILoc(i, "argv", 0), ILoc(i, "ph", 0), ILoc(i, "rd", 0)}]
+  /\ UNCHANGED <<body, program, shell>>
+\* one VM instruction of the current execution of process i (one of the two steps of one that starts a command)
 Step(i) ==
   /\ interp[i].status = "run"
-  /\ LET e == Exec1(program, interp[i], i)
+  /\ LET e == ExecP(program, shell, interp[i], i)
      IN /\ interp' = [interp EXCEPT ![i] = e.it]
         /\ program' = e.pr
+        /\ shell' = e.sh
         /\ acc' = [p |-> i, reads |-> e.reads, writes |-> e.writes]
         /\ spare' = IF ReuseInterp /\ e.it.status = "done" THEN e.it ELSE spare
   /\ UNCHANGED <<body, runs>>
